@@ -14,7 +14,7 @@
 From Coq Require Import List NArith Bool Permutation.
 Import ListNotations.
 From DDP Require Import Lower.Opt2Link Lower.Opt2LinkProofs.
-From DDP Require Import Lower.Opt2 Lower.Opt2Witness Lower.Opt2Safe Lower.Opt2ElideThm.
+From DDP Require Import Lower.Opt2 Lower.Opt2Witness Lower.Opt2Safe Lower.Opt2ElideThm Lower.Opt2Full.
 
 (* link_mode_irrelevant: for every two configurations (modules linked into one LLVM module or kept as separate objects)
    x (list definitions linked in or taken from the prebuilt object), every well-formed program, every referencing
@@ -109,3 +109,10 @@ Theorem C11_O2_elision_sound_partial :
   forall fuel p, elide_safe p = true -> run_elide fuel p = run_copy fuel p.
 Proof. exact elision_sound_partial. Qed.
 Print Assumptions C11_O2_elision_sound_partial.
+
+(* FULL: for the repaired compiler the compiler's own -O 2 transformation never changes the behaviour of
+   -O 0 / -O 1, for every program and every fuel (proved in Lower/Opt2Full.v; see Props/C08.v). *)
+Theorem C11_O2_elision_sound :
+  forall fuel p, run_elide fuel p = run_copy fuel p.
+Proof. exact elision_sound. Qed.
+Print Assumptions C11_O2_elision_sound.
